@@ -18,6 +18,8 @@ QIDS = (30, 4, 17, 9)
 
 
 def reference(k, seed_extra=None):
+    if k == 'dense':
+        return worlds.catalogue_ref(7, 'menu', 66, ref_id=12, dense_head=True)
     if seed_extra is not None:
         return worlds.catalogue_ref(100 + seed_extra, FAMILIES[seed_extra % 3], 68, ref_id=11)
     return worlds.catalogue_ref(k, FAMILIES[k], 66 + (k * 2) % 7, ref_id=(1, 24, 3, 117, 2, 8, 5, 40)[k], decimals=k % 2 == 1)
@@ -76,19 +78,19 @@ def check_world(ref, plants, mode, acc, key=None):
 
 
 class Windows(core.Layer):
-    def __init__(self, name, ref, lengths, offsets, all_modes, optional=False):
+    def __init__(self, name, ref, lengths, offsets, all_modes, optional=False, product=True, max_start=None):
         self.name, self.optional, self.ref = name, optional, ref
         n = len(ref[2])
         plants = []
         for l in lengths:
-            for s in range(4, n - 4 - l + 1):
+            for s in range(4, (n - 4 - l + 1) if max_start is None else min(max_start + 1, n - 4 - l + 1)):
                 for rev in (False, True):
-                    for off in offsets:
+                    for off in (offsets if product else (offsets[(s + l + rev) % len(offsets)],)):
                         plants.append((s, l, rev, off, (0.0, 2500.0)[(s + l) % 2]))
         self.groups = [plants[i:i + 4] for i in range(0, len(plants), 4)]
         self.all_modes = all_modes
         self.bounds = dict(reference_id=ref[0], labels=n, window_lengths=list(lengths), starts='every start with >=4 labels on both sides',
-                           strands=['+', '-'], offsets=list(offsets), trailing=[0, 2500],
+                           strands=['+', '-'], offsets=list(offsets), offsets_crossed=product, trailing=[0, 2500],
                            modes='all four on every group' if all_modes else 'best on every group, the other three on every 4th group')
         self.rule = '%d planted windows in %d runs' % (len(plants), len(self.groups))
 
@@ -107,11 +109,14 @@ class Windows(core.Layer):
 
 
 def layers(tier, seed):
+    both = (0.0, 777.7)
     if tier == 'quick':
         ls = (15, 16, 23, 30, 45)
-        return [Windows('ref0', reference(0), ls, (777.7,), False), Windows('ref1', reference(1), ls, (777.7,), False),
-                Windows('seed-ref', reference(0, seed % 50), (15, 45), (777.7,), False)]
+        return [Windows('ref0', reference(0), ls, both, False, product=False), Windows('ref1', reference(1), ls, both, False, product=False),
+                Windows('dense-head', reference('dense'), (15, 22), both, False, product=False, max_start=9),
+                Windows('seed-ref', reference(0, seed % 50), (15, 45), both, False, product=False)]
     ls = tuple(range(15, 46))
-    out = [Windows('ref%d' % k, reference(k), ls, (0.0, 777.7) if k < 2 else (777.7,), True, optional=k >= 3) for k in range(8)]
-    out.insert(3, Windows('seed-ref', reference(0, seed % 50), ls, (777.7,), True))
+    out = [Windows('ref%d' % k, reference(k), ls, both if k < 2 else (777.7,), True, optional=k >= 3) for k in range(8)]
+    out.insert(2, Windows('dense-head', reference('dense'), ls, both, True, max_start=12))
+    out.insert(4, Windows('seed-ref', reference(0, seed % 50), ls, (777.7,), True))
     return out
